@@ -137,10 +137,10 @@ class BodyGen:
             if r < 0.22:
                 d = rng.choice(GEN_DELEG)
                 base = 1000 + 10 * yid
-                self.feat.add('deleg:' + d.split('(')[0])
                 self.deleg[yid] = d.split('(')[0] if not d.startswith(('[', '(', 'iter')) else \
                     {'[': 'list', '(': 'genexpr', 'i': 'tuple_iter'}[d[0]]
                 self.ctx[yid] += '|d=' + self.deleg[yid]
+                self.feat.add('deleg:' + self.deleg[yid])
                 lines = ['v = yield from ' + (d % ((base,) * d.count('%d')))]
             elif r < 0.35:
                 lines = ['yield ' + val]
@@ -248,8 +248,11 @@ class BodyGen:
                                                                  else 'HOLD.g.cr_running')])
             if self.kind == 'coro' and op == 'next':
                 op, call = 'send', 'HOLD.g.send(None)'
+            # (message text only for the protocol's own ValueError; during abandonment HOLD.g is None and the wording of
+            # the resulting TypeError is not the generator protocol's business)
             return [ind + 'try:', i2 + "log(('re', '%s', 'ok', %s))" % (op, call),
-                    ind + 'except BaseException as re_:', i2 + "log(('re', '%s', type(re_).__name__, re_.args))" % op]
+                    ind + 'except BaseException as re_:',
+                    i2 + "log(('re', '%s', type(re_).__name__, re_.args if isinstance(re_, ValueError) else ()))" % op]
         if k == 'ifv':
             cond = rng.choice(["v == 1", "v is None", "v == 'b'", "v == 'x'", 'acc % 2'])
             out = [ind + 'if %s:' % cond] + self.block(i2, depth + 1, 1, 2)
